@@ -395,8 +395,8 @@ func (p *Prog) SrcFuncs() []*ssa.Function {
 	var out []*ssa.Function
 	var add func(f *ssa.Function)
 	add = func(f *ssa.Function) {
-		if f == nil || f.Blocks == nil {
-			return
+		if f == nil || f.Blocks == nil || strings.HasSuffix(f.Name(), "__flat") {
+			return // flat views duplicate code of their originals; rules ask for them by name
 		}
 		out = append(out, f)
 		for _, a := range f.AnonFuncs {
